@@ -501,7 +501,7 @@ def classify(fr, res, o_sh, conds, defs, deps, rng, budget):
                     return cls + ':non-monotone-substitution-accepted', 'substitution %s is not monotone on the range' % O.show(g)
                 if mono == 'discontinuous':
                     return cls + ':discontinuous-substitution-accepted', 'substitution %s has a pole inside the range' % O.show(g)
-                if mono in ('increasing', 'decreasing') and what == 'value-changed':
+                if mono in ('increasing', 'decreasing'):
                     wide = monotonicity(g, var, ('c', -7, 1), ('c', 7, 1), conds, defs, rng)
                     if wide == 'non-monotone':
                         return cls + ':inverse-branch-ignores-range', \
@@ -517,6 +517,8 @@ def classify(fr, res, o_sh, conds, defs, deps, rng, budget):
             if ii is not None and monotonicity(g, ii[1], ('c', -7, 1), ('c', 7, 1), conds, defs, rng) == 'non-monotone':
                 return cls + ':inverse-branch-ignores-range', \
                     'substitution %s is not injective; the antiderivative in the new variable is right on one branch only' % O.show(g)
+        if icls == 'DerivIntExchange' and e[0] == 'I' and e[4][0] == 'D' and e[4][1] == e[1]:
+            return cls + ':differentiation-variable-is-the-integration-variable', None
         if icls == 'DerivIntExchange' and what == 'value-changed':
             d = e if e[0] == 'D' else None
             if d is not None and d[2][0] == 'I' and (d[1] in O.free_vars(d[2][2]) or d[1] in O.free_vars(d[2][3])):
